@@ -55,6 +55,11 @@ Proof. exact edits_leave_old. Qed.
 Theorem c16_reach_sound : forall h roots a, In a (reach h roots) -> reachable h roots a.
 Proof. exact reach_sound. Qed.
 
+(* ... and complete whenever its certificate holds; the checker evaluates the certificate on every case (observe_ok) *)
+Theorem c16_reach_complete : forall h roots,
+  reach_ok h roots = true -> forall a, reachable h roots a -> In a (reach h roots).
+Proof. intros h roots. exact (reach_closed_complete h roots (reach h roots)). Qed.
+
 (* ---- the current tree: three sharing classes, each refuted on the model of the CURRENT copy discipline.
    F6  partition_problem on [g] with g = TwoQubitQPDGate.from_instruction(CXGate()), labels "AB":
        the basis object (address 11) of the input gate is reachable from the result. *)
@@ -122,6 +127,7 @@ Print Assumptions c16_fresh.
 Print Assumptions c16_fresh_between_results.
 Print Assumptions c16_edits_leave_inputs.
 Print Assumptions c16_reach_sound.
+Print Assumptions c16_reach_complete.
 Print Assumptions c16_refuted_F6.
 Print Assumptions c16_refuted_F10.
 Print Assumptions c16_refuted_F11.
